@@ -32,6 +32,8 @@ def make_column(c: dict) -> Any:
 
             return pd.array(vals, dtype=pd.ArrowDtype(getattr(pa, dt[6:])()))
         arr = np.array([np.nan if v is None else v for v in vals], dtype="float64")
+        if dt.startswith("sparse:"):  # pandas' sparse extension dtype with the given fill value
+            return pd.arrays.SparseArray(arr, fill_value=float(dt.split(":", 1)[1]))
         if dt != "float64":
             arr = arr.astype(dt)
         return arr
